@@ -3,6 +3,8 @@
 # certain rights in this software.
 """Fill in the value in a let-statement directly into a tree"""
 
+import math
+
 from jaqalpaq.error import JaqalError, nesting_guard
 from jaqalpaq.core.algorithm.visitor import Visitor
 from jaqalpaq.core import circuitbuilder
@@ -165,8 +167,12 @@ class LetFiller(Visitor):
         """Return the value for the given constant defined either in the
         override_dict or in the circuit itself."""
         if const.name in self.override_dict:
+            value = self.override_dict[const.name]
+            if isinstance(value, float) and not math.isfinite(value):
+                # Infinity and NaN cannot be written in Jaqal
+                raise JaqalError(f"Cannot override {const.name} with {value}")
             # Like a declared value, 4.0 stands for the integer 4
-            return circuitbuilder.as_integer(self.override_dict[const.name])
+            return circuitbuilder.as_integer(value)
         if isinstance(const.value, (int, float)):
             return const.value
         else:
